@@ -183,8 +183,8 @@ def _oracle_seq(case, out):
         elif c == 7:
             idx, r = l[1], l[2]
             v = blocked.pop(idx, None)
-            if seen_ops >= len(ops):
-                started = False    # the harness stops the graph at the end of the case
+            if seen_ops >= len(ops) or (i < len(out) and out[i][0] == 4):
+                started = False    # released by a stop: the explicit one whose line follows, or the harness's final one
             if r == 3:
                 bad("stuck_sender", "blocked send of op %d never completed" % idx)
             elif r == 1:
